@@ -417,6 +417,38 @@ func c11Scenarios() []bScenario {
 			done(fl, cl)
 		})
 	}
+	// the connection breaks while another goroutine of the survivor is inside GetMetrics (which holds the session's
+	// shutdown lock for a moment): the blocked read and AcceptStream must be released all the same
+	add("read-and-accept-vs-peer-death-during-getmetrics", 1, 2, func() {
+		p := newEPair(pairOpts{})
+		cst, _ := openBoth(p)
+		rd := &c11Call{name: "ReadBytes(5)"}
+		ac := &c11Call{name: "AcceptStream"}
+		t1 := vrt.GoProc("reader", 1, func() {
+			c11Do(rd, func() (int, error) { b, err := cst.BufferReader().ReadBytes(5); return len(b), err })
+		})
+		t3 := vrt.GoProc("acceptor", 1, func() {
+			c11Do(ac, func() (int, error) { _, err := p.c.AcceptStream(); return 0, err })
+		})
+		t4 := vrt.GoProc("metrics", 1, func() {
+			for i := 0; i < 2; i++ {
+				p.c.GetMetrics()
+			}
+		})
+		t2 := vrt.GoLazy("killer", 0, func() { p.killProc(2) })
+		vrt.WaitThreads(t1, t2, t3, t4)
+		if rd.err == nil || rd.err == ErrTimeout {
+			vrt.Failf("read-result", "read while the peer process died returned %v", rd.err)
+		}
+		if ac.err == nil {
+			vrt.Failf("accept-result", "AcceptStream after the peer died returned a stream")
+		}
+		vrt.WaitIdle(vrt.Second)
+		if !p.c.IsClosed() {
+			vrt.Failf("not-closed", "the peer died; the surviving session is not closed")
+		}
+		done(rd, ac)
+	})
 	return scs
 }
 
